@@ -6,6 +6,7 @@ import (
 	"math/rand"
 	"os"
 	"strconv"
+	"strings"
 	"sync"
 	"time"
 
@@ -60,15 +61,26 @@ func runSnaprace(args []string) {
 			applied := 0
 			commitC := make(chan *raftexample.RaftCommit, 64)
 			maxDelay := []int{0, 1, 3, 8}[sc%4]
+			var deliveredIDs []string // the proposals in the order the state machine was handed them, read AFTER its delay (a batch whose backing array is reused meanwhile shows here)
 			go func() {
 				for c := range commitC {
 					if maxDelay > 0 {
 						time.Sleep(time.Duration(rng.Intn(maxDelay*1000)) * time.Microsecond)
 					}
 					mu.Lock()
+					for _, p := range c.Data {
+						if maxDelay > 0 {
+							mu.Unlock()
+							time.Sleep(20 * time.Microsecond) // a state machine takes its time per command
+							mu.Lock()
+						}
+						deliveredIDs = append(deliveredIDs, p.ID)
+					}
 					applied += len(c.Data)
 					mu.Unlock()
-					close(c.ApplyDoneC)
+					if c.ApplyDoneC != nil {
+						close(c.ApplyDoneC)
+					}
 				}
 			}()
 			defer close(commitC)
@@ -82,19 +94,40 @@ func runSnaprace(args []string) {
 			cmdsUpTo := map[uint64]int{0: 0} // number of commands among the entries 1..i
 			lastSnap := uint64(0)
 			script := ""
+			var wantIDs []string
 			nb := 4 + rng.Intn(20)
 			for b := 0; b < nb; b++ {
 				k := 1 + rng.Intn(4)
+				if sc%3 == 2 {
+					k = 3 + rng.Intn(5)
+				}
 				kind := rng.Intn(4) // 0,1: commands; 2: empty entries only; 3: mixed
 				var ents []raftpb.Entry
 				withCmd := 0
 				for j := 0; j < k; j++ {
 					idx++
 					e := raftpb.Entry{Index: idx, Term: 1}
+					if sc%3 == 2 && j > 0 && j < k-1 && rng.Intn(2) == 0 {
+						// a membership change BETWEEN commands of one Ready (ConfChangeUpdateNode / AddNode without a URL: publishEntries applies it to
+						// the raft node and touches nothing else)
+						cc := raftpb.ConfChange{Type: []raftpb.ConfChangeType{raftpb.ConfChangeUpdateNode, raftpb.ConfChangeAddNode}[rng.Intn(2)], NodeID: 2}
+						if rng.Intn(2) == 0 {
+							e.Type = raftpb.EntryConfChange
+							e.Data, _ = cc.Marshal()
+						} else {
+							e.Type = raftpb.EntryConfChangeV2
+							v2 := cc.AsV2()
+							e.Data, _ = v2.Marshal()
+						}
+						cmdsUpTo[idx] = cmdsUpTo[idx-1]
+						ents = append(ents, e)
+						continue
+					}
 					if kind <= 1 || (kind == 3 && rng.Intn(2) == 0) {
 						p, _ := json.Marshal(&raftexample.RaftProposal{ID: fmt.Sprint(idx), Args: [][]byte{[]byte("INCR"), []byte("n")}})
 						e.Data = p
 						withCmd++
+						wantIDs = append(wantIDs, fmt.Sprint(idx))
 					}
 					cmdsUpTo[idx] = cmdsUpTo[idx-1] + map[bool]int{true: 1, false: 0}[e.Data != nil]
 					ents = append(ents, e)
@@ -122,6 +155,25 @@ func runSnaprace(args []string) {
 						return
 					}
 				}
+			}
+			// every command of the log reached the state machine exactly once, in log order (wait for the last batch)
+			for w := 0; w < 2000; w++ {
+				mu.Lock()
+				nd := len(deliveredIDs)
+				mu.Unlock()
+				if nd >= len(wantIDs) {
+					break
+				}
+				time.Sleep(time.Millisecond)
+			}
+			mu.Lock()
+			got := append([]string(nil), deliveredIDs...)
+			mu.Unlock()
+			if strings.Join(got, ",") != strings.Join(wantIDs, ",") {
+				rep.Result = "wrong-delivery"
+				rep.Detail = fmt.Sprintf("the state machine was handed the proposals %v; the committed log carries %v (batches of sizes/commands %s, membership-change entries between commands in scenarios 2 mod 3)", got, wantIDs, script)
+				rep.Script = script
+				return
 			}
 			rep.Result = "ok"
 		}()
